@@ -2,6 +2,7 @@
    conformance relation of Fix/SchemaSpec.v, for every well-formed schema. *)
 From Coq Require Import ZArith NArith List Bool Lia Sorting.Sorted.
 From AF Require Import Base.Sx Py.Str Fix.SchemaModel Fix.SchemaSpec.
+From AFGen Require GenSchema.
 Import ListNotations.
 Local Open Scope nat_scope.
 
@@ -832,3 +833,449 @@ Section Header.
       + apply IH. exact Hc.
   Qed.
 End Header.
+
+(* ------------------------------------------------------------------ the theorems of C15 *)
+
+Definition msg_strs (m : message) : list str := flat_map (fun e => value_strs (snd e)) (tags m).
+
+Lemma find_message_In : forall Sc mt M, find_message Sc mt = Some M -> In (mt, M) (s_messages Sc).
+Proof.
+  intros Sc mt M H. unfold find_message in H.
+  destruct (find (fun p => str_eqb (fst p) mt) (s_messages Sc)) as [[mt' M']|] eqn:E; [|discriminate].
+  simpl in H. inversion H; subst. apply find_some in E. destruct E as [Hin E]. simpl in E.
+  apply str_eqb_eq in E. subst. exact Hin.
+Qed.
+
+Lemma In_find_message : forall Sc mt M,
+  NoDup (map fst (s_messages Sc)) -> In (mt, M) (s_messages Sc) -> find_message Sc mt = Some M.
+Proof.
+  intros Sc mt M Hnd Hin. unfold find_message.
+  destruct (find (fun p => str_eqb (fst p) mt) (s_messages Sc)) as [[mt' M']|] eqn:E.
+  - apply find_some in E. destruct E as [Hin' E]. simpl in E. apply str_eqb_eq in E. subst mt'.
+    assert ((mt, M') = (mt, M)) as Heq.
+    { apply (NoDup_map_inj _ _ fst (s_messages Sc)); auto. }
+    inversion Heq; subst. reflexivity.
+  - exfalso. apply (find_none _ _ E) in Hin. simpl in Hin. rewrite str_eqb_refl in Hin. discriminate.
+Qed.
+
+Section Main.
+  Variable value_check : field -> str -> option exc.
+  Variable Sc : schema.
+  Hypothesis Hwf : wf_schema Sc = true.
+
+  Lemma wf_parts :
+    NoDup (map f_tag (s_fields Sc)) /\ NoDup (map f_name (s_fields Sc))
+    /\ NoDup (map fst (s_messages Sc))
+    /\ (forall m, In m (s_header Sc) -> mtag m <> TAG10)
+    /\ (forall mt M, In (mt, M) (s_messages Sc) -> wf_set Sc (s_header Sc ++ M) = true).
+  Proof.
+    unfold wf_schema in Hwf.
+    apply andb_true_iff in Hwf. destruct Hwf as [H H5].
+    apply andb_true_iff in H. destruct H as [H H4].
+    apply andb_true_iff in H. destruct H as [H H3].
+    apply andb_true_iff in H. destruct H as [H1 H2].
+    split; [apply nodupb_NoDup; exact H1|].
+    split; [apply nodupN_NoDup; exact H2|].
+    split; [apply nodupb_NoDup; exact H3|].
+    split.
+    - intros m Hin E. apply negb_true_iff in H4.
+      assert (existsb (fun m => str_eqb (mtag m) TAG10) (s_header Sc) = true); [|congruence].
+      apply existsb_exists. exists m. split; [exact Hin|]. apply str_eqb_eq. exact E.
+    - intros mt M Hin. rewrite forallb_forall in H5. apply (H5 (mt, M) Hin).
+  Qed.
+
+  Theorem validate_sound : forall m,
+    keys_unique (tags m) = true ->
+    validate value_check Sc m = Ok -> conforms value_check Sc m.
+  Proof.
+    intros m Hu H. destruct wf_parts as [Hft [Hfn [Hmt [H10 Hsets]]]].
+    unfold validate in H.
+    destruct (find_message Sc (msg_type m)) as [M|] eqn:Ef; [|discriminate].
+    apply find_message_In in Ef. specialize (Hsets _ _ Ef).
+    destruct (check_required M (tags m)) eqn:Er; [|discriminate].
+    destruct (if has_tag TAG8 (tags m) then validate_header_loop value_check (s_header Sc) (tags m) else Ok)
+      eqn:Eh; [|discriminate].
+    exists M. split; [exact Ef|].
+    split; [apply check_required_ok; exact Er|].
+    split.
+    - intros Hp mem Hin Hr. apply has_tag_present in Hp. rewrite Hp in Eh.
+      rewrite header_loop_ok in Eh. apply (Eh mem Hin Hr).
+    - intros t v Hin Hne.
+      destruct (proj1 (body_loop_ok value_check Sc M (tags m)) H t v Hin Hne) as [mem [Hm Hv]].
+      apply (member_for_spec Sc M Hft Hfn Hsets) in Hm. destruct Hm as [Hmem Ht].
+      exists mem. split; [exact Hmem|]. split; [exact Ht|].
+      apply (validate_member_sound value_check Sc); [| apply (set_wf_member Sc M Hsets); exact Hmem | exact Hv].
+      unfold keys_unique in Hu. apply andb_true_iff in Hu. destruct Hu as [_ Hu].
+      rewrite forallb_forall in Hu. apply (Hu (t, v) Hin).
+  Qed.
+
+  Theorem validate_complete : forall m,
+    conforms value_check Sc m -> validate value_check Sc m = Ok.
+  Proof.
+    intros m [M [HinM [Hreq [Hhdr Hent]]]]. destruct wf_parts as [Hft [Hfn [Hmt [H10 Hsets]]]].
+    specialize (Hsets _ _ HinM).
+    unfold validate. rewrite (In_find_message Sc _ M Hmt HinM).
+    rewrite (proj2 (check_required_ok M (tags m)) Hreq).
+    assert (Hh : (if has_tag TAG8 (tags m) then validate_header_loop value_check (s_header Sc) (tags m) else Ok) = Ok).
+    { destruct (has_tag TAG8 (tags m)) eqn:E8; [|reflexivity].
+      apply header_loop_ok. intros mem Hin Hr.
+      assert (Hp : present (mtag mem) (tags m)).
+      { apply Hhdr; [apply has_tag_present; exact E8 | exact Hin | exact Hr]. }
+      split; [exact Hp|]. intros f r ->.
+      apply has_tag_present in Hp. destruct (has_tag_get _ _ Hp) as [v Hg].
+      unfold mtag in Hg. simpl in Hg.
+      destruct (Hent (f_tag f) v (get_tag_In _ _ _ Hg) (H10 _ Hin)) as [mem' [Hin' [Ht' Hc']]].
+      assert (mem' = MField f r) as ->.
+      { apply (NoDup_map_inj _ _ mtag (s_header Sc ++ M));
+          [apply (set_nodup Sc M Hsets) | exact Hin' | apply in_or_app; left; exact Hin | exact Ht']. }
+      inversion Hc'; subst. exists s. auto. }
+    rewrite Hh. apply (body_loop_ok value_check Sc M).
+    intros t v Hin Hne. destruct (Hent t v Hin Hne) as [mem [Hmem [Ht Hc]]].
+    exists mem. split.
+    - apply (member_for_spec Sc M Hft Hfn Hsets). auto.
+    - apply (validate_member_complete value_check Sc); [apply (set_wf_member Sc M Hsets); exact Hmem | exact Hc].
+  Qed.
+End Main.
+
+(* no well-formedness needed for the exception class *)
+Theorem validate_class : forall value_check Sc m,
+  (forall f s e, In s (msg_strs m) -> value_check f s = Some e -> e = EFIXMessage) ->
+  validate value_check Sc m = Ok \/ validate value_check Sc m = Exc EFIXMessage.
+Proof.
+  intros vc Sc m Hc. unfold validate.
+  destruct (find_message Sc (msg_type m)) as [M|]; [|right; reflexivity].
+  destruct (check_required_class M (tags m)) as [-> | ->]; [|right; reflexivity].
+  assert (Hh : ok_or_fme (if has_tag TAG8 (tags m) then validate_header_loop vc (s_header Sc) (tags m) else Ok)).
+  { destruct (has_tag TAG8 (tags m)); [|left; reflexivity]. apply header_loop_class.
+    intros f s e t Hin. apply Hc. unfold msg_strs. apply in_flat_map.
+    exists (t, VStr s). split; [exact Hin | left; reflexivity]. }
+  destruct Hh as [-> | ->]; [|right; reflexivity].
+  apply body_loop_class. exact Hc.
+Qed.
+
+(* ------------------------------------------------------------------ single-fault mutations *)
+
+Section Faults.
+  Variable value_check : field -> str -> option exc.
+
+  (* --- facts about conforming items --- *)
+  Lemma conf_entries_members : forall ms es,
+    conf_entries value_check ms es ->
+    forall t v, In (t, v) es -> exists mem, In mem ms /\ mtag mem = t /\ conf_member value_check mem v.
+  Proof.
+    intros ms es H. induction H as [|m ms es Hr H IH|m ms v es Hq H IH]; intros t v' Hin.
+    - contradiction.
+    - destruct (IH t v' Hin) as [mem [Hm Hx]]. exists mem. split; [right; exact Hm | exact Hx].
+    - destruct Hin as [E|Hin].
+      + inversion E; subst. exists m. split; [left; reflexivity | auto].
+      + destruct (IH t v' Hin) as [mem [Hm Hx]]. exists mem. split; [right; exact Hm | exact Hx].
+  Qed.
+
+  Lemma conf_entries_required : forall ms es,
+    conf_entries value_check ms es ->
+    forall mem, In mem ms -> mreq mem = true -> In (mtag mem) (map fst es).
+  Proof.
+    intros ms es H. induction H as [|m ms es Hr H IH|m ms v es Hq H IH]; intros mem Hin Hreq.
+    - contradiction.
+    - destruct Hin as [->|Hin]; [congruence | apply IH; assumption].
+    - simpl. destruct Hin as [->|Hin]; [left; reflexivity | right; apply IH; assumption].
+  Qed.
+
+  Lemma conf_item_entries : forall ms it,
+    conf_item value_check ms it -> conf_entries value_check ms it.
+  Proof. intros ms it H. destruct H. apply CE_take; assumption. Qed.
+
+  Lemma not_in_remove_tag : forall t c, ~ In t (map fst (remove_tag t c)).
+  Proof.
+    intros t c H. apply in_map_iff in H. destruct H as [[t' v] [E Hin]]. simpl in E. subst t'.
+    unfold remove_tag in Hin. apply filter_In in Hin. destruct Hin as [_ Hn]. simpl in Hn.
+    rewrite str_eqb_refl in Hn. discriminate.
+  Qed.
+
+  Lemma In_insert_at : forall n (e : str * value) c, In e (insert_at n e c).
+  Proof. intros. unfold insert_at. apply in_or_app. right. left. reflexivity. Qed.
+
+  Lemma In_set_value : forall t v c, In t (map fst c) -> In (t, v) (set_value t v c).
+  Proof.
+    intros t v c H. apply in_map_iff in H. destruct H as [[t' v'] [E Hin]]. simpl in E. subst t'.
+    unfold set_value. apply in_map_iff. exists (t, v'). split; [|exact Hin]. simpl.
+    rewrite str_eqb_refl. reflexivity.
+  Qed.
+
+  (* --- values of the wrong kind or refused by single-value validation --- *)
+  Lemma bad_value_nonconf : forall f r s e,
+    value_check f s = Some e -> ~ conf_member value_check (MField f r) (VStr s).
+  Proof. intros f r s e Hv H. inversion H; subst. congruence. Qed.
+
+  Lemma group_for_plain_nonconf : forall f r items, ~ conf_member value_check (MField f r) (VGrp items).
+  Proof. intros f r items H. inversion H. Qed.
+
+  Lemma plain_for_group_nonconf : forall f r ms s, ~ conf_member value_check (MGroup f r ms) (VStr s).
+  Proof. intros f r ms s H. inversion H. Qed.
+
+  (* a group with one non-conforming item does not conform: faults propagate upwards *)
+  Lemma bad_item_nonconf : forall f r ms a it b,
+    ~ conf_item value_check ms it -> ~ conf_member value_check (MGroup f r ms) (VGrp (a ++ it :: b)).
+  Proof.
+    intros f r ms a it b Hn H. inversion H as [|? ? ? ? Hall]; subst. apply Hn.
+    rewrite Forall_forall in Hall. apply Hall. apply in_or_app. right. left. reflexivity.
+  Qed.
+
+  (* --- faults inside an item of a group with members ms --- *)
+  Lemma item_missing_required : forall ms mem it,
+    In mem ms -> mreq mem = true -> ~ conf_item value_check ms (remove_tag (mtag mem) it).
+  Proof.
+    intros ms mem it Hin Hr H. apply conf_item_entries in H.
+    apply (not_in_remove_tag (mtag mem) it). eapply conf_entries_required; eassumption.
+  Qed.
+
+  Lemma item_missing_first : forall m0 ms it,
+    ~ conf_item value_check (m0 :: ms) (remove_tag (mtag m0) it).
+  Proof.
+    intros m0 ms it H. apply (not_in_remove_tag (mtag m0) it).
+    remember (remove_tag (mtag m0) it) as c eqn:Ec. clear Ec.
+    inversion H; subst. left. reflexivity.
+  Qed.
+
+  Lemma item_foreign_member : forall ms t v n it,
+    (forall mem, In mem ms -> mtag mem <> t) -> ~ conf_item value_check ms (insert_at n (t, v) it).
+  Proof.
+    intros ms t v n it Hf H. apply conf_item_entries in H.
+    destruct (conf_entries_members _ _ H t v (In_insert_at n (t, v) it)) as [mem [Hin [Ht _]]].
+    apply (Hf mem Hin Ht).
+  Qed.
+
+  Lemma item_bad_member_value : forall ms mem v a b,
+    NoDup (map mtag ms) -> In mem ms -> ~ conf_member value_check mem v ->
+    ~ conf_item value_check ms (a ++ (mtag mem, v) :: b).
+  Proof.
+    intros ms mem v a b Hnd Hin Hn H. apply conf_item_entries in H.
+    destruct (conf_entries_members _ _ H (mtag mem) v) as [mem' [Hin' [Ht' Hc']]].
+    { apply in_or_app. right. left. reflexivity. }
+    assert (mem' = mem) as -> by (eapply NoDup_map_inj; eassumption).
+    contradiction.
+  Qed.
+
+  Lemma conf_item_positions : forall ms it,
+    conf_item value_check ms it ->
+    exists idxs, Forall2 (at_pos value_check ms 0) it idxs /\ StronglySorted lt idxs.
+  Proof.
+    intros ms it H. destruct H as [m ms' v es Hq He].
+    destruct (align_complete value_check (m :: ms') ms' es He 1 (fun j => eq_refl)) as [idxs [HF [HS _]]].
+    exists (0 :: idxs). split.
+    - constructor.
+      + split; [lia|]. exists m. simpl. auto.
+      + apply (at_pos_shift value_check (m :: ms') 1); [exact HF|].
+        apply at_pos_ge in HF. eapply Forall_impl; [|exact HF]. simpl. intros. lia.
+    - constructor; [exact HS|]. apply at_pos_ge in HF.
+      eapply Forall_impl; [|exact HF]. simpl. intros. lia.
+  Qed.
+
+  Lemma sorted_adjacent : forall ia i1 i2 ib, StronglySorted lt (ia ++ i1 :: i2 :: ib) -> i1 < i2.
+  Proof.
+    induction ia as [|x ia IH]; intros i1 i2 ib H; simpl in H.
+    - inversion H as [|? ? _ Hlt]; subst. inversion Hlt; subst. assumption.
+    - inversion H; subst. eapply IH. eassumption.
+  Qed.
+
+  Lemma conf_item_adjacent : forall ms a e1 e2 b,
+    conf_item value_check ms (a ++ e1 :: e2 :: b) ->
+    exists i1 i2 m1 m2, i1 < i2 /\ nth_error ms i1 = Some m1 /\ mtag m1 = fst e1
+                        /\ nth_error ms i2 = Some m2 /\ mtag m2 = fst e2.
+  Proof.
+    intros ms a e1 e2 b H. destruct (conf_item_positions _ _ H) as [idxs [HF HS]].
+    apply Forall2_app_inv_l in HF. destruct HF as [ia [ir [_ [HF ->]]]].
+    inversion HF as [|? i1 ? ir' [_ [m1 [Hn1 [Ht1 _]]]] HF']; subst.
+    inversion HF' as [|? i2 ? ib [_ [m2 [Hn2 [Ht2 _]]]] _]; subst.
+    exists i1, i2, m1, m2. split; [eapply sorted_adjacent; exact HS | auto].
+  Qed.
+
+  Lemma item_out_of_order : forall ms a e1 e2 b,
+    NoDup (map mtag ms) ->
+    conf_item value_check ms (a ++ e1 :: e2 :: b) -> ~ conf_item value_check ms (a ++ e2 :: e1 :: b).
+  Proof.
+    intros ms a e1 e2 b Hnd H1 H2.
+    destruct (conf_item_adjacent _ _ _ _ _ H1) as [i1 [i2 [m1 [m2 [Hlt [Hn1 [Ht1 [Hn2 Ht2]]]]]]]].
+    destruct (conf_item_adjacent _ _ _ _ _ H2) as [j2 [j1 [m2' [m1' [Hlt' [Hn2' [Ht2' [Hn1' Ht1']]]]]]]].
+    assert (i1 = j1) by (eapply NoDup_map_nth; [exact Hnd | exact Hn1 | exact Hn1' | congruence]).
+    assert (i2 = j2) by (eapply NoDup_map_nth; [exact Hnd | exact Hn2 | exact Hn2' | congruence]).
+    lia.
+  Qed.
+
+  (* --- faults at message level --- *)
+  Variable Sc : schema.
+  Hypothesis Hwf : wf_schema Sc = true.
+
+  Lemma conforms_message_type : forall m M M',
+    In (msg_type m, M) (s_messages Sc) -> In (msg_type m, M') (s_messages Sc) -> M' = M.
+  Proof.
+    intros m M M' H1 H2. destruct (wf_parts Sc Hwf) as [_ [_ [Hmt _]]].
+    assert ((msg_type m, M') = (msg_type m, M)) as E.
+    { apply (NoDup_map_inj _ _ fst (s_messages Sc)); auto. }
+    inversion E. reflexivity.
+  Qed.
+
+  Lemma msg_unknown_type : forall m,
+    ~ In (msg_type m) (map fst (s_messages Sc)) -> ~ conforms value_check Sc m.
+  Proof.
+    intros m Hn [M [Hin _]]. apply Hn. apply in_map_iff. exists (msg_type m, M). auto.
+  Qed.
+
+  Lemma msg_missing_required : forall mt c M mem,
+    In (mt, M) (s_messages Sc) -> In mem M -> mreq mem = true ->
+    ~ conforms value_check Sc (mkMsg mt (remove_tag (mtag mem) c)).
+  Proof.
+    intros mt c M mem HinM Hin Hr [M' [HinM' [Hreq _]]]. simpl in *.
+    assert (M' = M) as -> by (apply (conforms_message_type (mkMsg mt c)); assumption).
+    apply (not_in_remove_tag (mtag mem) c). apply present_keys. apply Hreq; assumption.
+  Qed.
+
+  Lemma msg_missing_required_header : forall mt c mem,
+    In mem (s_header Sc) -> mreq mem = true -> mtag mem <> TAG8 -> present TAG8 c ->
+    ~ conforms value_check Sc (mkMsg mt (remove_tag (mtag mem) c)).
+  Proof.
+    intros mt c mem Hin Hr Hne [v8 H8] [M' [_ [_ [Hhdr _]]]]. simpl in *.
+    apply (not_in_remove_tag (mtag mem) c). apply present_keys. apply Hhdr; [|exact Hin | exact Hr].
+    exists v8. unfold remove_tag. apply filter_In. split; [exact H8|]. cbn [fst].
+    apply negb_true_iff. apply str_eqb_neq. congruence.
+  Qed.
+
+  Lemma msg_foreign_tag : forall mt c M t v n,
+    In (mt, M) (s_messages Sc) -> t <> TAG10 ->
+    (forall mem, In mem (s_header Sc ++ M) -> mtag mem <> t) ->
+    ~ conforms value_check Sc (mkMsg mt (insert_at n (t, v) c)).
+  Proof.
+    intros mt c M t v n HinM Hne Hf [M' [HinM' [_ [_ Hent]]]]. simpl in *.
+    assert (M' = M) as -> by (apply (conforms_message_type (mkMsg mt c)); assumption).
+    destruct (Hent t v (In_insert_at n (t, v) c) Hne) as [mem [Hin [Ht _]]].
+    apply (Hf mem Hin Ht).
+  Qed.
+
+  Lemma msg_bad_member_value : forall mt c M mem v,
+    In (mt, M) (s_messages Sc) -> In mem (s_header Sc ++ M) -> mtag mem <> TAG10 ->
+    In (mtag mem) (map fst c) -> ~ conf_member value_check mem v ->
+    ~ conforms value_check Sc (mkMsg mt (set_value (mtag mem) v c)).
+  Proof.
+    intros mt c M mem v HinM Hin Hne Hp Hn [M' [HinM' [_ [_ Hent]]]]. simpl in *.
+    assert (M' = M) as -> by (apply (conforms_message_type (mkMsg mt c)); assumption).
+    destruct (Hent (mtag mem) v (In_set_value _ v c Hp) Hne) as [mem' [Hin' [Ht' Hc']]].
+    destruct (wf_parts Sc Hwf) as [_ [_ [_ [_ Hsets]]]].
+    assert (mem' = mem) as ->.
+    { apply (NoDup_map_inj _ _ mtag (s_header Sc ++ M));
+        [apply (set_nodup Sc M (Hsets _ _ HinM)) | exact Hin' | exact Hin | exact Ht']. }
+    contradiction.
+  Qed.
+End Faults.
+
+(* non-conforming messages are rejected with the library's message error, nothing else *)
+Theorem nonconforming_rejected : forall value_check Sc m,
+  wf_schema Sc = true -> keys_unique (tags m) = true ->
+  (forall f s e, In s (msg_strs m) -> value_check f s = Some e -> e = EFIXMessage) ->
+  ~ conforms value_check Sc m -> validate value_check Sc m = Exc EFIXMessage.
+Proof.
+  intros vc Sc m Hwf Hu Hc Hn. destruct (validate_class vc Sc m Hc) as [H|H]; [|exact H].
+  exfalso. apply Hn. apply validate_sound; assumption.
+Qed.
+
+(* ------------------------------------------------------------------ instances: the regenerated dictionaries *)
+
+Local Open Scope N_scope.
+
+Lemma fix44_wf : wf_schema GenSchema.FIX44.schema = true.
+Proof. vm_compute. reflexivity. Qed.
+
+Lemma tt_wf : wf_schema GenSchema.TT.schema = true.
+Proof. vm_compute. reflexivity. Qed.
+
+Definition T (n : N) : str := n_to_dec n.
+Definition accept_all : field -> str -> option exc := fun _ _ => None.
+
+(* NewOrderList (E) with NoOrders > NoPartyIDs > NoPartySubIDs: nesting depth 3 *)
+Definition ex_item : container :=
+  [(T 11, VStr [99; 49]); (T 67, VStr [49]);
+   (T 453, VGrp [[(T 448, VStr [112]); (T 447, VStr [68]); (T 452, VStr [49]);
+                  (T 802, VGrp [[(T 523, VStr [120]); (T 803, VStr [49])]])]]);
+   (T 55, VStr [88]); (T 54, VStr [49])].
+Definition ex_head : container := [(T 66, VStr [76; 49]); (T 394, VStr [49]); (T 68, VStr [49])].
+Definition ex_msg : message := mkMsg [69] (ex_head ++ [(T 73, VGrp [ex_item])]).
+
+Lemma ex_msg_validates : validate accept_all GenSchema.FIX44.schema ex_msg = Ok.
+Proof. vm_compute. reflexivity. Qed.
+
+Lemma ex_msg_conforms :
+  keys_unique (tags ex_msg) = true /\ conforms accept_all GenSchema.FIX44.schema ex_msg.
+Proof.
+  assert (keys_unique (tags ex_msg) = true) as Hu by (vm_compute; reflexivity).
+  split; [exact Hu|]. apply validate_sound; [exact fix44_wf | exact Hu | exact ex_msg_validates].
+Qed.
+
+(* ledger D3 (repaired): NewOrderList without its required group NoOrders *)
+Lemma ex_required_group_enforced :
+  validate accept_all GenSchema.FIX44.schema (mkMsg [69] ex_head) = Exc EFIXMessage
+  /\ ~ conforms accept_all GenSchema.FIX44.schema (mkMsg [69] ex_head).
+Proof.
+  assert (validate accept_all GenSchema.FIX44.schema (mkMsg [69] ex_head) = Exc EFIXMessage) as H
+    by (vm_compute; reflexivity).
+  split; [exact H|]. intro Hc. apply (validate_complete _ _ fix44_wf) in Hc. congruence.
+Qed.
+
+(* a required member of a nested group item left out at depth 3 (PartySubIDType is optional, so
+   drop the first member PartySubID instead: first-member rule at depth 3) *)
+Definition ex_item_bad_depth3 : container :=
+  [(T 11, VStr [99; 49]); (T 67, VStr [49]);
+   (T 453, VGrp [[(T 448, VStr [112]); (T 447, VStr [68]); (T 452, VStr [49]);
+                  (T 802, VGrp [[(T 803, VStr [49])]])]]);
+   (T 55, VStr [88]); (T 54, VStr [49])].
+Lemma ex_fault_at_depth3 :
+  validate accept_all GenSchema.FIX44.schema (mkMsg [69] (ex_head ++ [(T 73, VGrp [ex_item_bad_depth3])]))
+  = Exc EFIXMessage.
+Proof. vm_compute. reflexivity. Qed.
+
+(* a plain member of a group item given as a group (was AssertionError before the repair) *)
+Lemma ex_group_for_plain_in_item :
+  validate accept_all GenSchema.FIX44.schema
+    (mkMsg [69] (ex_head ++ [(T 73, VGrp [[(T 11, VStr [99]); (T 67, VGrp [[(T 1, VStr [97])]]); (T 54, VStr [49])]])]))
+  = Exc EFIXMessage.
+Proof. vm_compute. reflexivity. Qed.
+
+(* an optional header member with a refused value is checked even without BeginString *)
+Definition refuse_43 : field -> str -> option exc :=
+  fun f _ => if str_eqb (f_tag f) (T 43) then Some EFIXMessage else None.
+Lemma ex_header_member_checked :
+  validate refuse_43 GenSchema.FIX44.schema
+    (mkMsg [69] ((T 43, VStr [81]) :: ex_head ++ [(T 73, VGrp [ex_item])])) = Exc EFIXMessage.
+Proof. vm_compute. reflexivity. Qed.
+
+(* the exception class of validate is the one single-value validation raises (ledger D23: an empty
+   string makes validate_value fail an assertion): the hypothesis of validate_class is needed *)
+Definition assert_nonempty : field -> str -> option exc :=
+  fun _ s => match s with [] => Some EAssertion | _ => None end.
+Lemma ex_value_class_escapes :
+  exists vc Sc m, wf_schema Sc = true /\ keys_unique (tags m) = true
+                  /\ validate vc Sc m = Exc EAssertion.
+Proof.
+  exists assert_nonempty, GenSchema.FIX44.schema,
+    (mkMsg [69] ((T 66, VStr []) :: tl ex_head ++ [(T 73, VGrp [ex_item])])).
+  split; [exact fix44_wf|]. split; vm_compute; reflexivity.
+Qed.
+
+(* the unique-keys hypothesis of soundness is needed: on a list with a repeated key (which an
+   OrderedDict cannot hold) the order test `prev_tag > ord_idx` lets the repetition through *)
+Definition toy_a : field := mkField (T 1) 0 0 false.
+Definition toy_g : field := mkField (T 2) 1 1 false.
+Definition toy_schema : schema :=
+  mkSchema [toy_a; toy_g] [] [([88], [MGroup toy_g false [MField toy_a true]])].
+Definition toy_dup : message :=
+  mkMsg [88] [(T 2, VGrp [[(T 1, VStr [97]); (T 1, VStr [97])]])].
+Lemma ex_unique_keys_needed :
+  exists Sc m, wf_schema Sc = true /\ validate accept_all Sc m = Ok /\ ~ conforms accept_all Sc m.
+Proof.
+  exists toy_schema, toy_dup. split; [vm_compute; reflexivity|]. split; [vm_compute; reflexivity|].
+  intros [M [HinM [_ [_ Hent]]]]. simpl in HinM. destruct HinM as [E|[]]. inversion E; subst M.
+  destruct (Hent (T 2) (VGrp [[(T 1, VStr [97]); (T 1, VStr [97])]]) (or_introl eq_refl))
+    as [mem [Hin [_ Hc]]].
+  { vm_compute. discriminate. }
+  simpl in Hin. destruct Hin as [<-|[]].
+  inversion Hc as [|? ? ? ? Hall]; subst. inversion Hall as [|? ? Hit _]; subst.
+  inversion Hit as [? ? ? ? _ He]; subst. inversion He.
+Qed.
